@@ -102,6 +102,12 @@ CLAIMED = {
         "fault/role enumeration (exhaustive matrix) + property-based payloads, snapshot-diff oracle",
         "DESIGN.md §4 C16",
     ),
+    "C17": (
+        "Exhaustive configuration enumeration with a differential twin: for the constant-product pair, the stableswap pair, the trio and the vault, all 2^3 switch combinations (set through the factories) x every entry path (ProvideLiquidity, native Swap, cw20 Send{Swap}, cw20 Send{WithdrawLiquidity}, pool-router hop; vault Deposit, cw20 Send{Withdraw}, FlashLoan direct and through the vault router; frontend-helper deposit) x {empty, funded} are executed as the regression corpus (240 + 128 + 8 cases) and random amounts / asset kinds are drawn on top. Each case builds the world twice (identical builder, twin has every switch on): a switched-off operation must be rejected with the snapshot unchanged, every other operation must have the same outcome and the same balance / LP-supply deltas as the twin, re-enabling restores twin equality, fresh pools and vaults report all switches on.",
+        "Twin worlds are deterministic copies; token-factory LP paths not exercised.",
+        "exhaustive configuration x path enumeration with a differential (twin-world) oracle",
+        "DESIGN.md §4 C17",
+    ),
     "C02": (
         "Generated-input search (proptest, 16 deterministic shards) over the whole documented domain [1,2^128)^3 x valid fee triples x decimals, judged against an independent exact 1024-bit reference: gross floor, fee floors, strict bound, totality inside the 128-bit domain, there-and-back with the case's fees and with zero fees, gross monotone in the offer. Exploration, not proof: millions of cases per quick run, hundreds of millions thorough, with boundary constants and extreme-ratio shapes weighted in.",
         "Trusts refmath.rs (bnum integers, self-tested at start-up) and that commands::swap / queries::query_simulation call the hooked compute_swap (cross-checked by C14). A panic is an abort.",
